@@ -24,7 +24,7 @@ def send_contract(name, params, record_expr):
             for nm, e in zip(dilq.RELY_NAMES, dilq.RELY)]
     c = Contract(
         MG + name, props=[PROP], params=params, self_fields={"_outbound": "obj[Outbound]"}, assert_mode="prove",
-        requires=on(OBJ, INV_W),
+        requires=on(OBJ, INV_W), modifies=["_outbound." + f for f in dilq.ALLMOD],
         ensures=[(nm, e.replace("self.", OBJ + ".")) for nm, e in named(INV_W)] +
                 [("rely." + nm, e) for nm, e in rely] + [
             ("c10.one-record-per-call", f"{q} == old({q}) + {rec}"),
@@ -60,15 +60,54 @@ INBOUND = [
              self_fields={"_open_subchannels": f"dict[int,{SUBCH}]", "_highest_inbound_acked": "int"},
              ensures=[("at-most-one-close", "bcalls('remote_close') <= 1 and len(bcall_names()) == bcalls('remote_close')")]),
 ]
-# Inbound.handle_open builds a SubChannel and talks to the subprotocol factories: C13's business.  Here it is a
-# dispatch boundary: assumed to return normally and (by inspection: it only touches _open_subchannels) to leave
-# the watermark alone.
-HANDLE_OPEN_STUB = Contract(IB + "handle_open", props=[], params={"scid": "int", "subprotocol": "str"},
-                            self_fields={"_open_subchannels": f"dict[int,{SUBCH}]"}, modifies=["_open_subchannels"])
+# Inbound.handle_open: the REAL body, with the demultiplexer used through C13's contract of _got_open and
+# Manager.send_close (the refusal of an unexpected subprotocol) through its contract above.  What C10 needs of it:
+# it returns, it leaves the watermark alone (frame), and the only thing it may do to the sender side is queue
+# exactly one CLOSE - the refusal - which then is an ordinary record of this side's stream.
+from . import c13 as _c13   # noqa: E402
 
+MOB = "self._manager._outbound"
+MDX = "self._manager._subprotocol_factories"
+OPEN_REFUSED = (f"(scid not in self._open_subchannels) and (subprotocol not in {MDX}._factories) and "
+                f"not allows({MDX}._expected, subprotocol)")
+HO_Q, HO_U, HO_N = f"{MOB}._outbound_queue", f"{MOB}._queued_unsent", f"{MOB}._next_outbound_seqnum"
+HO_KEPT = ("forall(lambda k: k == scid or ((k in self._open_subchannels) == (k in old(self._open_subchannels)) and "
+           "self._open_subchannels[k] == old(self._open_subchannels)[k]))")
+HANDLE_OPEN = Contract(
+    IB + "handle_open", props=[PROP], params={"scid": "int", "subprotocol": "str"},
+    self_fields={"_open_subchannels": f"dict[int,{SUBCH}]", "_highest_inbound_acked": "int", "_manager": "obj[Manager]",
+                 "_host_addr": "opaque[Addr]", "_connection": "opt[obj[Conn]]", "_paused_subchannels": f"set[{SUBCH}]"},
+    assert_mode="prove", requires=on(MOB, INV_W),
+    modifies=["_open_subchannels", "_manager._subprotocol_factories._pending_opens"] + ["_manager._outbound." + f for f in dilq.ALLMOD],
+    ensures=[(nm, e.replace("self.", MOB + ".")) for nm, e in named(INV_W)] + [
+        ("c10.duplicate-open-ignored",
+         "not old(scid in self._open_subchannels) or (self._open_subchannels[scid] == old(self._open_subchannels)[scid] and "
+         f"no_records(new_part({HO_Q}, old({HO_Q}))))"),
+        ("c10.refused-open-queues-exactly-one-close",
+         f"not old({OPEN_REFUSED}) or {HO_Q} == old({HO_Q}) + [close_record(old({HO_N}), scid)]"),
+        ("c10.refused-open-not-kept", f"not old({OPEN_REFUSED}) or scid not in self._open_subchannels"),
+        ("c10.accepted-open-leaves-the-sender-side-alone",
+         f"old({OPEN_REFUSED}) or ({HO_Q} == old({HO_Q}) and {HO_U} == old({HO_U}) and {HO_N} == old({HO_N}) and "
+         f"conn_sent({MOB}) == old(conn_sent({MOB})) and conn_same({MOB}, old({MOB})))"),
+        ("c10.accepted-new-open-registered",
+         f"old(scid in self._open_subchannels) or old({OPEN_REFUSED}) or scid in self._open_subchannels"),
+        ("c10.other-subchannels-untouched", HO_KEPT)],
+    internal_ensures=[
+        ("c10.one-subchannel-built-and-offered-once-iff-new",
+         "news('SubChannel') == ite(old(scid in self._open_subchannels), 0, 1) and "
+         "n_calls('SubchannelDemultiplex._got_open') == news('SubChannel') and "
+         f"n_calls('Manager.send_close') == ite(old({OPEN_REFUSED}), 1, 0) and len(bcall_names()) == 0")],
+    note="frame: _highest_inbound_acked (the seqnum watermark), _connection and _paused_subchannels are not touched; "
+         "SubChannel construction is a boundary event, the demultiplexer is used through C13's contract of _got_open")
+HANDLE_OPEN.qf_feasibility = True
+
+GDX = "self._subprotocol_factories"
+GOT_REFUSED = (f"seqnum(r) > old({WM}) and old(r.scid not in self._inbound._open_subchannels) and "
+               f"old(r.subprotocol not in {GDX}._factories) and not allows(old({GDX}._expected), r.subprotocol)")
 GOT = Contract(
     MG + "got_record", props=[PROP], params={"r": REC4},
-    self_fields={"_inbound": "obj[Inbound]", "_outbound": "obj[Outbound]"}, assert_mode="prove",
+    self_fields={"_inbound": "obj[Inbound]", "_outbound": "obj[Outbound]", "_subprotocol_factories": "obj[SubchannelDemultiplex]"},
+    assert_mode="prove", pre_hook=lambda it, fr: fr.selfobj.fields["_inbound"].fields.__setitem__("_manager", fr.selfobj),
     requires=on(OBJ, INV_W),
     ensures=[(nm, e.replace("self.", OBJ + ".")) for nm, e in named(INV_W)] + [
         ("c10.always-acked",
@@ -89,8 +128,15 @@ GOT = Contract(
         ("c10.ack-does-not-move-watermark", f"not isinstance(r, Ack) or {WM} == old({WM})"),
         ("c10.ack-retires", f"implies(isinstance(r, Ack), all_above({OBJ}._outbound_queue, r.resp_seqnum) and "
                             f"dropped_acked(old({OBJ}._outbound_queue), {OBJ}._outbound_queue, r.resp_seqnum))"),
-        ("c10.data-does-not-touch-queue", f"isinstance(r, Ack) or ({OBJ}._outbound_queue == old({OBJ}._outbound_queue) and "
-                                          f"{OBJ}._queued_unsent == old({OBJ}._queued_unsent))")],
+        ("c10.data-does-not-touch-queue",
+         f"isinstance(r, Ack) or isinstance(r, Open) or ({OBJ}._outbound_queue == old({OBJ}._outbound_queue) and "
+         f"{OBJ}._queued_unsent == old({OBJ}._queued_unsent))"),
+        ("c10.open-does-not-touch-queue-unless-refused",
+         f"implies(isinstance(r, Open), ({GOT_REFUSED}) or ({OBJ}._outbound_queue == old({OBJ}._outbound_queue) and "
+         f"{OBJ}._queued_unsent == old({OBJ}._queued_unsent)))"),
+        ("c10.refused-open-answered-by-exactly-one-close",
+         f"implies(isinstance(r, Open), not ({GOT_REFUSED}) or {OBJ}._outbound_queue == old({OBJ}._outbound_queue) + "
+         f"[close_record(old({OBJ}._next_outbound_seqnum), r.scid)])")],
     note="records with a seqnum (Open/Data/Close) and Ack; Ping/Pong/KCM are C16's business. A duplicate is acked but not "
          "dispatched; a new record is acked, raises the watermark and is dispatched once, unchanged")
 GOT.qf_feasibility = True
@@ -149,17 +195,157 @@ LEMMAS.append(Contract(
          "composition, so assuming it once for a whole producer turn (any number of re-entrant calls) is justified; "
          "reflexivity is immediate (W = [])"))
 
+# ---- glue between the two sides (formerly argued in ASSUMPTIONS): each step is a lemma discharged by SMT over the
+# clauses the contracts above prove.  State of the induction, between connections and at every record boundary:
+#   receiver: delivered == records 0..w, each once, in order (w = watermark);
+#   sender:   un-acked queue == records a..n-1 (inv.q-contiguous-seqnums) with a <= w+1.
+A_OF = "{0}._next_outbound_seqnum - len({0}._outbound_queue)"      # seqnum of the oldest un-acked record
+
+
+def _subst(e, m):
+    for k, v in m.items():
+        e = e.replace(k, v)
+    return e
+
+
+_RR = LEMMAS[0]          # lemma:receive_run - its proved ensures clauses are the hypotheses of exactly_once_step
+_RR_AS_HYP = [_subst(e, {"old(inb._highest_inbound_acked)": "w0", "inb._highest_inbound_acked": "w1", "result": "dispatched"})
+              for _, e in _RR.ensures]
+
+def _uc_rel(e):
+    """a clause of use_connection's contract (self/old(self), parameter c) as a relation between a (before), b (after), c0, c1"""
+    import re
+    e = e.replace("old(c.sent)", "c0.sent").replace("c.sent", "c1.sent")
+    e = re.sub(r"old\(self\.(\w+)\)", r"a.\1", e)
+    return e.replace("(self)", "(b)").replace("self.", "b.")
+
+
+_UC = [c for c in dilq.outbound_contracts() if c.target.endswith("Outbound.use_connection")][0]
+_UC_AS_HYP = [_uc_rel(e) for nm, e in _UC.ensures
+              if nm in ("c10.queue-only-grows", "c10.everything-unacked-replayed-first") or nm.startswith("inv.q-") or
+              nm in ("inv.unsent-is-suffix-of-queue",)]
+
+LEMMAS += [
+    Contract("lemma:new_connection_stream", props=[PROP], source_module="wormhole/_dilation/outbound.py",
+             params={"a": "obj[Outbound]", "b": "obj[Outbound]", "c0": "obj[Conn]", "c1": "obj[Conn]"},
+             source_text="""
+             def new_connection_stream(a, b, c0, c1):
+                 return None
+             """,
+             requires=on("a", INV) + ["a._connection is None", "no_records(c0.sent)"] + _UC_AS_HYP,
+             ensures=[("stream-is-the-whole-unacked-queue-then-later-writes",
+                       "c1.sent + b._queued_unsent == b._outbound_queue and "
+                       "b._outbound_queue == a._outbound_queue + new_part(b._outbound_queue, a._outbound_queue)"),
+                      ("stream-is-a-contiguous-run-from-the-oldest-unacked-record",
+                       "contig(c1.sent + b._queued_unsent, b._next_outbound_seqnum) and "
+                       f"len(c1.sent + b._queued_unsent) == len(b._outbound_queue) and "
+                       f"{A_OF.format('b')} == {A_OF.format('a')}"),
+                      ("what-was-handed-over-so-far-is-a-prefix-of-it",
+                       "contig(c1.sent, b._next_outbound_seqnum - len(b._queued_unsent))")],
+             note="(a) over the clauses Outbound.use_connection's contract proves (hypotheses = its ensures c10.queue-only-grows, "
+                  "c10.everything-unacked-replayed-first and inv.*, taken from the contract object; a/b = the Outbound before/after, "
+                  "c0/c1 = the fresh connection before/after): everything a fresh connection is given and will be given from the "
+                  "backlog is the un-acked queue from its oldest record on, followed by whatever is written during the call - one "
+                  "contiguous run of seqnums ending at _next_outbound_seqnum; the oldest un-acked seqnum does not move"),
+    Contract("lemma:stream_prefix_contiguous", props=[PROP], source_module="wormhole/_dilation/outbound.py",
+             params={"stream": f"seq[{SEQREC}]", "recs": f"seq[{SEQREC}]", "rest": f"seq[{SEQREC}]", "n": "int"},
+             source_text="""
+             def stream_prefix_contiguous(stream, recs, rest, n):
+                 return None
+             """,
+             requires=["contig(stream, n)", "stream == recs + rest"],
+             ensures=[("a-prefix-of-a-contiguous-run-is-contiguous", "contig(recs, n - len(rest))"),
+                      ("and-starts-at-the-same-seqnum", "(n - len(rest)) - len(recs) == n - len(stream)")],
+             note="(a) whatever prefix of the stream the connection delivers before it is lost (L2 delivers whole records in "
+                  "order: C12) is again a contiguous run starting at the same seqnum"),
+    Contract("lemma:ack_keeps_oldest_unacked_bound", props=[PROP], source_module="wormhole/_dilation/outbound.py",
+             params={"ob": "obj[Outbound]", "resp_seqnum": "int", "w": "int"},
+             source_text="""
+             def ack_keeps_oldest_unacked_bound(ob, resp_seqnum, w):
+                 ob.handle_ack(resp_seqnum)
+                 return None
+             """,
+             requires=on("ob", INV_Q[:3]) + [f"{A_OF.format('ob')} <= w + 1", "resp_seqnum <= w"],
+             ensures=[("oldest-unacked-still-at-most-watermark-plus-one", f"{A_OF.format('ob')} <= w + 1"),
+                      ("queue-still-a-contiguous-run", "contig(ob._outbound_queue, ob._next_outbound_seqnum) and "
+                                                       "ob._next_outbound_seqnum == old(ob._next_outbound_seqnum)")],
+             note="(b) over Outbound.handle_ack's contract (c10.first-unretired): an ack never exceeds the receiver's watermark w "
+                  "(acks are only produced by Manager.got_record: c10.always-acked + c10.watermark-is-max), so retiring acked "
+                  "records keeps (oldest un-acked seqnum) <= w + 1"),
+    Contract("lemma:write_keeps_oldest_unacked", props=[PROP], source_module="wormhole/_dilation/outbound.py",
+             params={"a": "obj[Outbound]", "b": "obj[Outbound]", "w1": f"seq[{SEQREC}]"},
+             source_text="""
+             def write_keeps_oldest_unacked(a, b, w1):
+                 return None
+             """,
+             requires=[_rel(e, "b", "a").replace("W", "w1") for e in dilq.RELY[:2]],
+             ensures=[("oldest-unacked-unchanged-by-writes", f"{A_OF.format('b')} == {A_OF.format('a')}")],
+             note="(b) over the rely.* clauses every write entry point guarantees (send_data/send_open/send_close, any number "
+                  "composed: lemma:rely_transitive): queueing records does not move the oldest un-acked seqnum"),
+    Contract("lemma:exactly_once_step", props=[PROP], source_module="wormhole/_dilation/manager.py",
+             params={"delivered": f"seq[{SEQREC}]", "recs": f"seq[{SEQREC}]", "dispatched": f"seq[{SEQREC}]",
+                     "w0": "int", "w1": "int", "end": "int", "a": "int", "n": "int"},
+             source_text="""
+             def exactly_once_step(delivered, recs, dispatched, w0, w1, end, a, n):
+                 return None
+             """,
+             requires=["w0 >= -1", "contig(delivered, w0 + 1)", "len(delivered) == w0 + 1",      # receiver half of the invariant
+                       "a <= w0 + 1", "a <= n", "w0 + 1 <= n",                                   # sender half: queue == a..n-1, nothing delivered that was not built
+                       "contig(recs, end)", "end - len(recs) == a", "end <= n"] +                # a delivered prefix of the stream
+                      _RR_AS_HYP,                                                                # what lemma:receive_run proves
+             ensures=[("delivered-is-again-every-seqnum-up-to-the-watermark-once-in-order",
+                       "contig_cat(delivered, dispatched, w1 + 1) and len(delivered + dispatched) == w1 + 1"),
+                      ("nothing-skipped-nothing-repeated", "w1 == max(w0, end - 1) and len(dispatched) == w1 - w0"),
+                      ("sender-half-kept", "a <= w1 + 1 and w1 + 1 <= n and w1 >= -1")],
+             note="induction step across connections: if delivered == records 0..w0 (each once, in order) and the sender's "
+                  "un-acked queue is a..n-1 with a <= w0+1, then after the receiver has processed any prefix recs of the "
+                  "connection's stream (first seqnum a; lemma:new_connection_stream + lemma:stream_prefix_contiguous give the "
+                  "hypotheses, lemma:receive_run gives `dispatched` and w1) delivered' == records 0..w1 and a <= w1+1 still. "
+                  "Base case: delivered == [], w == -1, a == 0 (Inbound/Outbound constructors)"),
+]
+
 for _c in INBOUND + LEMMAS:
     _c.qf_feasibility = True
 for _c in INBOUND + SEND + [GOT]:
     _c.replay = dilq.REPLAY
 
-CONTRACTS = dilq.outbound_contracts() + SEND + INBOUND + [GOT] + LEMMAS
+CONTRACTS = dilq.outbound_contracts() + SEND + INBOUND + [HANDLE_OPEN, GOT] + LEMMAS
 
 
 def regf(exclude=()):
-    reg = dilq.make_reg(CONTRACTS + [HANDLE_OPEN_STUB], exclude)
+    reg = dilq.make_reg(CONTRACTS, exclude)
     reg.boundary_returns = {}
+    # what Inbound.handle_open reaches: the real Manager (send_close) and the subprotocol demultiplexer (C13's contract)
+    register_classes(reg, [_c13.SUB, _c13.MGR])
+    reg.class_fields["Manager"] = {"_outbound": "obj[Outbound]", "_subprotocol_factories": "obj[SubchannelDemultiplex]"}
+    reg.class_fields["SubchannelDemultiplex"] = dict(_c13.DEMUX_FIELDS)
+    for c in _c13.DEMUX_CONTRACTS:
+        if c.target.endswith("SubchannelDemultiplex._got_open"):
+            reg.contracts[c.target] = _c13.caller_view(c)
+    reg.spec_funcs["allows"] = _c13.allows
+
+    def contig_cat(it, x, y, n):
+        """contig(x + y, n); the two element-wise facts about a concatenation that the sequence solvers do not derive under a
+        quantifier are proved first as obligations of their own (pure facts of finite sequences), then used"""
+        import z3
+        xy = z3.Concat(x.z, y.z)
+        j = z3.Int("j!cc")
+        it.ctx.lemma(z3.ForAll([j], z3.Implies(z3.And(0 <= j, j < L(x.z)), xy[j] == x.z[j])), "seq-fact.concat-left")
+        it.ctx.lemma(z3.ForAll([j], z3.Implies(z3.And(L(x.z) <= j, j < L(x.z) + L(y.z)), xy[j] == y.z[j - L(x.z)])),
+                     "seq-fact.concat-right")
+        return reg.spec_funcs["contig"](it, VSeq(xy, x.elem), n)
+
+    reg.spec_funcs["contig_cat"] = contig_cat
+    reg.spec_funcs["close_record"] = lambda it, n, scid: VTuple([n, scid], "Close", ["seqnum", "scid"])
+
+    def new_subchannel(it, cls, args, kwargs):
+        o = it.fresh(SUBCH, "new_subchannel")
+        it.ctx.event("new", "SubChannel", list(args), o)
+        return o
+    reg.ext_models["new:SubChannel"] = new_subchannel
+    reg.ext_models["new:SubchannelAddress"] = lambda it, cls, args, kwargs: VTuple(
+        [args[0] if args else kwargs["subprotocol"]], "SubchannelAddress", ["subprotocol"])
+    reg.spec_funcs["news"] = lambda it, cls: VInt(sum(1 for e in it.ctx.trace if e[0] == "new" and e[1][0] == it.concrete(cls)))
     return reg
 
 
@@ -181,15 +367,29 @@ TRUSTED = list(dilq.TRUSTED_COMMON) + [
 ASSUMPTIONS = [
     "L2 delivers the records handed to one connection whole, in order, possibly cut short (C12); acks are only produced by "
     "Manager.got_record, so an ack's seqnum never exceeds the receiver's watermark",
-    "glue between the two sides that is argued, not machine-checked: (a) by use_connection.c10.everything-unacked-replayed-first "
-    "and inv.q-contiguous-seqnums the stream of a connection is the un-acked queue from its oldest record on, a contiguous run; a "
-    "prefix of it is again contiguous; (b) by handle_ack.c10.first-unretired the oldest un-acked seqnum is at most (highest ack)+1 "
-    "<= receiver watermark+1. (a)+(b) are the preconditions of lemma:receive_run, which gives: dispatched seqnums are "
-    "watermark+1, watermark+2, ... each once, in order, on every connection",
+    "glue between the two sides, now lemmas discharged by SMT over the contracts' own clauses (hypotheses are taken from the contract "
+    "objects): lemma:new_connection_stream (use_connection: the stream of a fresh connection is the un-acked queue from its oldest "
+    "record on, then later writes - one contiguous run), lemma:stream_prefix_contiguous, lemma:ack_keeps_oldest_unacked_bound "
+    "(handle_ack, applied as a contract), lemma:write_keeps_oldest_unacked (rely.*), lemma:receive_run, lemma:exactly_once_step "
+    "(induction step: delivered == records 0..w and un-acked queue == a..n-1 with a <= w+1 <= n is kept by processing any prefix of a "
+    "connection's stream). What remains ARGUED is only the composition of these steps over a whole execution (the induction itself, "
+    "base case delivered == [], w == -1, a == 0 from the constructors) and the two environment facts in the first item (L2 FIFO "
+    "prefix; an ack's seqnum <= receiver watermark)",
+    "exactly_once_step is a pure implication {receive_run.requires, receive_run.ensures, invariant} => invariant'; "
+    "use_connection's contract cannot be APPLIED at a call site (havoc of _connection yields a new object, conn_is(self, c) is then "
+    "unsatisfiable), so lemma:new_connection_stream takes use_connection's proved ensures clauses as hypotheses instead of calling it",
     "Outbound.use_connection is only called while there is no connection (Manager stops the old one first; one connection at "
     "a time is C11) and, like resumeProducing/stop_using_connection/handle_ack, from the reactor, not from inside a producer's turn",
     "Manager.got_record is under contract for Open/Data/Close/Ack; Ping/Pong/KCM handling is C16's",
-    "Inbound.handle_open (builds a SubChannel, subprotocol factories) is a dispatch boundary here: assumed to return and not to "
-    "touch the watermark (C13 covers it); handle_data/handle_close are verified",
+    "Inbound.handle_open is verified on its real body (watermark, _connection, _paused_subchannels untouched: frame obligations; a "
+    "refused OPEN queues exactly one CLOSE through Manager.send_close's contract, otherwise the sender side is untouched) and "
+    "Manager.got_record uses that contract. Inside it: SubChannel(...) is a boundary event (opaque handle), "
+    "SubchannelDemultiplex._got_open is used through the contract C13 proves; the application's buildProtocol/makeConnection/"
+    "dataReceived callbacks (reached through _got_open / SubChannel.remote_data) do not raise and are not followed when they re-enter "
+    "Manager.send_* (re-entrant writes are covered for producers only: rely.*)",
+    "corrected clause: got_record's `c10.data-does-not-touch-queue` held for an Open only under the former assumption that handle_open "
+    "does nothing to the sender side; the real handle_open answers an OPEN for an undeclared subprotocol with one CLOSE (C13 requires "
+    "it). It is now split: Data/Close never touch the queue; an Open does not unless refused; a refused Open queues exactly "
+    "Close(next seqnum, scid)",
     "not decided: that a replacement connection is eventually made, and that the peer eventually acks (liveness, C11/C16)",
 ]
